@@ -34,9 +34,9 @@ def binaryOk (op : BinOp) (l r : Option VType) : Bool :=
   match op with
   | .add =>
       match l, r with
-      | some .string, _ | some .dynamic, _ => true
-      | _, some .string | _, some .dynamic => true
-      | some .number, some .number => true
+      | some .string, some .string | some .string, some .number | some .string, some .dynamic
+      | some .number, some .string | some .number, some .number | some .number, some .dynamic
+      | some .dynamic, some .string | some .dynamic, some .number | some .dynamic, some .dynamic => true
       | _, _ => false
   | .minus | .times | .divide | .mod =>
       match l, r with
@@ -51,9 +51,9 @@ def binaryOk (op : BinOp) (l r : Option VType) : Bool :=
       | _, _ => false
   | .and | .or =>
       match l, r with
-      | some .bool, some .bool => true
-      | some .null, _ | some .dynamic, _ => true
-      | _, some .null | _, some .dynamic => true
+      | some .bool, some .bool | some .bool, some .null | some .bool, some .dynamic
+      | some .null, some .bool | some .null, some .null | some .null, some .dynamic
+      | some .dynamic, some .bool | some .dynamic, some .null | some .dynamic, some .dynamic => true
       | _, _ => false
 
 /-- `infer_expr_type`, arm `Expr::Binary` (both operand types known). -/
@@ -264,11 +264,16 @@ def memberAny (n : Bytes) : Option MemberB :=
 (`expect_member_string_arg` / `expect_member_number_arg` on argument 0). -/
 inductive ArgCheck where
   | none | string0 | string0If2 | number0
+  /-- the first two arguments are strings / numbers (`replace`, `slice`) -/
+  | strings2 | numbers2
 deriving DecidableEq, Repr, Inhabited
 
 def MemberB.argCheck (m : MemberB) : ArgCheck :=
   if m.kind = .processCommand && m.name = b!"cwd" then .string0
   else if m.kind = .array && m.name = b!"join" then .string0
+  else if m.kind = .string && (m.name = b!"find" || m.name = b!"split") then .string0
+  else if m.kind = .string && m.name = b!"replace" then .strings2
+  else if m.kind = .string && m.name = b!"slice" then .numbers2
   else if m.kind = .processCommand && m.name = b!"env" then .string0If2
   else if m.kind = .processCommand && m.name = b!"timeout_ms" then .number0
   else .none
